@@ -1,4 +1,3 @@
 package main
 
-func genWritePaths(repo string) string { return "namespace Stfs.Gen\nend Stfs.Gen\n" }
-func genFacts(repo string) string      { return "{}\n" }
+func genFacts(repo string) string { return "{}\n" }
